@@ -196,7 +196,7 @@ def _check_step(before, obj, k):
 
 def _explore(rec, case_id, chi, nd, flags, with_mf, presort, do_pairs):
     """BFS to fixpoint from one initial state, on the real objects."""
-    from mc.canon import canon
+    from mc.canon import state_hash as canon      # state identity (private attributes included), not an oracle
 
     def build(hist):
         o = _mk(chi_init, flags, with_mf, presort)
